@@ -187,19 +187,33 @@ PROPS['C15'] = _board('C15', ['C15'],
     'Reported stream compared with the model iteration loop (subsequence ending in the same final iteration: the one-slot channel keeps only the latest unread PV) and each reported score with the reference minimax at its depth; analysis ends at the limit or at a forced mate within the depth; Halt returns depth >= 1, a completed iteration (equal to the direct search), at least as deep as everything reported before the halt; Limits compared on a grid (Impl lemma).')
 PROPS['C15'].update({
     'coq_targets': ['Properties/C15.vo', 'Impl/ImplBoard.vo', 'Impl/ImplMisc.vo'],
-    'obligation_files': ['Properties/C15.v', 'Lemmas/IterateLemmas.v', 'Lemmas/SearchctlLemmas.v', 'Impl/ImplMisc.v', 'Impl/ImplBoard.v'],
+    'obligation_files': ['Properties/C15.v', 'Lemmas/DriverLemmas5.v', 'Lemmas/IterateLemmas.v', 'Lemmas/SearchctlLemmas.v', 'Impl/ImplMisc.v', 'Impl/ImplBoard.v'],
     'level': 'proof',
-    'level_text': 'Proof: the iteration loop on the real board model reports depths 1,2,3,... in order, each entry being exactly the direct full-window search at that depth on the threaded board/table, and ends exactly at the depth limit or the first depth with a forced mate within the depth; the hard time limit never exceeds the remaining clock (int64 Duration arithmetic with truncating division) for clocks >= 0 and moves-to-go < 2^31. The halting protocol (Halt waits for depth 1, returns a completed iteration at least as deep as everything reported before the halt) is proved on the driver transition system (C16, in progress) and checked on the implementation by halting real analyses at random instants. ',
+    'level_text': 'Proof: the iteration loop on the real board model reports depths 1,2,3,... in order, each entry being exactly the direct full-window search at that depth on the threaded board/table, and ends exactly at the depth limit or the first depth with a forced mate within the depth; the hard time limit never exceeds the remaining clock (int64 Duration arithmetic with truncating division) for clocks >= 0 and moves-to-go < 2^31. The halting protocol is proved on the driver transition system under every interleaving: Halt returns only after depth 1 has completed (halt_after_depth1), what it returns is a completed iteration (halt_returns_completed) and at least as deep as everything reported before the halt (halt_at_least_reported); it is also checked on the implementation by halting real analyses at random instants. ',
     'level_note': 'A consumer that falls behind misses intermediate depths (one-slot channel, latest wins): the property is read as "what is reported is in increasing order, each equal to the direct search, and the final iteration is always delivered". Wall-clock behaviour of time.AfterFunc and the soft limit is not modelled. Trusted: Coq kernel, harness.',
 })
 PROPS['C04'] = _board('C04', ['C04'],
     'sequential: 30 (quick) / 600 (thorough) UCI sessions on the real driver (position / go depth d / repeated go / ucinewgame, table on and off, static and quiescence leaves), each go run to completion; concurrent: randomly timed scripts against the four bundled engine configurations (hash/noise/book on and off): go depth, go infinite + stop, movetime, clock, superseding position+go, stale movetime timer, junk lines, quit / end of input while searching - run under the race detector.',
     'Sequential: info lines and bestmove compared with the end-to-end model (UciSeq.go_depth: fork, iterative deepening with the engine table, bestmove = head of the last PV); bestmove legal in the specification game of the last position line, 0000 only without legal moves, exactly one per go. Concurrent: every owed go answered exactly once within a timeout, never twice, answers legal in the current position.')
 PROPS['C04'].update({'stress': ['C04']})
+PROPS['C04'].update({
+    'coq_targets': ['Properties/C04.vo', 'Properties/C16.vo', 'Properties/C15.vo', 'Impl/ImplBoard.vo'],
+    'obligation_files': ['Properties/C04.v', 'Lemmas/DriverLemmas.v', 'Lemmas/DriverLemmas4.v', 'Lemmas/DriverLemmas5.v', 'Lemmas/SearchBoardInst.v', 'Impl/ImplBoard.v'],
+    'level': 'proof',
+    'level_text': 'Proof on the driver transition system (Model/Driver.v: command loop, search goroutine, forwarder, movetime timer and hard-limit timer as separately scheduled processes over the active / searches counters, the update channel with sequence numbers and the AsyncCloser handle): in every reachable state of every script under every interleaving each go has at most one bestmove, a bestmove is only ever emitted for a go, and once the system is at rest every go that was not superseded and whose search ended by itself, was stopped, timed out or was answered by the book has exactly one; Halt returns a completed iteration of depth >= 1. Legality / null move: the PV of the full-window root search on the real board model is a line of legal moves, empty only without legal moves or at a draw-by-rule root (board_pv_sound_nott; with a table the sequential end-to-end model UciSeq.go_depth is compared with the driver output and the specification). The model is tied to the code by replaying every command/output trace recorded from the real driver (four engine configurations, race build, random timing) through the trace acceptor of the model (Driver.obs_ok) and by the sequential end-to-end model.',
+    'level_note': 'The transition system is hand-written from uci.go / engine.go / iterative.go; its tie to the code is the trace acceptor (real traces must be accepted) plus exhaustive exploration of two scripts (all 3289 / 7457 states satisfy the invariants and their traces are accepted); scheduling fairness and Go channel semantics are modelled, wall-clock timers are nondeterministic events. Legality with a transposition table rests on the differential check (C11 shows table-on = table-off for scores, PV legality under hash collision is not proved). Trusted: Coq kernel, extraction, harness.',
+})
 PROPS['C16'] = _board('C16', [],
     'randomly timed command scripts (isready, stop, new position / go / ucinewgame during a search, junk and empty lines, quit and end of input while searching) against the real driver with the four bundled engine configurations, under the race detector; positions alternate the side to move so that an answer computed for a superseded search is recognisably illegal.',
     'No panic, no data race, output closed within a timeout after quit / end of input, one readyok per isready, no bestmove that is illegal in the position last set up (stale), no duplicate answers.')
 PROPS['C16'].update({'stress': ['C16']})
+PROPS['C16'].update({
+    'coq_targets': ['Properties/C16.vo', 'Impl/ImplBoard.vo'],
+    'obligation_files': ['Properties/C16.v', 'Lemmas/DriverLemmas.v', 'Lemmas/DriverLemmas7.v', 'Lemmas/DriverLemmas8.v'],
+    'level': 'proof',
+    'level_text': 'Proof on the driver transition system, for every script (isready, ucinewgame, position good/bad, go with every option mix, book-answered go, stop, quit, junk, end of input) and every interleaving of loop, search goroutine, forwarder and the two timers: nothing is ever sent on the closed output channel (the only panic path of the loop), the output is closed iff the loop has exited; the search whose updates are accepted is always the latest one, so a superseded search is never answered and no bestmove is emitted between a superseding command and the next go; every isready is answered by readyok in the same loop step; no reachable state is stuck (the loop blocked in Halt always has a way forward, the search goroutine never blocks, forwarders drain); after quit / end of input nothing more is emitted and the exited state can always be reached. The hand-off as found (before the fix: commits) is refuted by three concrete traces (send on closed channel, stale bestmove, stale movetime timer). Tie to the code: recorded traces of the real driver under the race detector are replayed through the model trace acceptor; liveness, panics, races and output closure are observed directly.',
+    'level_note': 'Hand-written transition system (see C04 note). No-deadlock is stated as "not stuck" plus "can finish" - termination under a fair scheduler is not formalised. Data races are outside the model (race detector only). Trusted: Coq kernel, extraction, harness.',
+})
 
 PROPS['C18'] = _board('C18', ['C18', 'C15'],
     'for each of the four bundled engine configurations (noise off, no table): random games from the start or curated positions, analysed to depth 1-3: on a fresh engine, twice on one engine, with Zobrist seeds 0/1/99, after unrelated searches and after searching the SAME position with a different history (a reversible 4-ply shuffle appended: same position and hash, other HasMoved / last move / move number), concurrently on three engines, and with noise on twice from the same seed; every analysis also checks that the engine s own game (FEN and all board getters) is unchanged.',
